@@ -54,6 +54,7 @@ def run(ctx):
     F = ctx.F
     cg = pr.callgraph(F)
     ok_slices = lr.rule_byte_offsets(ctx, "R11.1")
+    lr.rule_ascii_lookahead_premise(ctx, "R11.1p")
     roots = lr.lef_roots(F, lr.READ_ROOTS)
     # str slices proven byte-unit are discharged for the panic inventory (G8)
     def exclude(f):
